@@ -1026,6 +1026,101 @@ func c12R7(p *engine.Prog, r *engine.Report) {
 		r.Check(bad == "", "C12-R7", engine.RelName(f)+"|crop constants == "+itoa(arr.Len()), p.Pos(f.Pos()), "every length constant equals the array length", "length constant differs from the receiver's array length at "+bad+" (slice bounds panic on long input)")
 	}
 	r.Floor("C12-R7", 3, "Hash, Address, Hash128")
+	// ---------------- R9: never a hang — a lock taken while handling a message is released on every path
+	{
+		la := lockAnalysis(p)
+		var fns []*ssa.Function
+		for _, f := range p.AllFuncs() {
+			if f.Blocks == nil || f.Synthetic != "" || isTestish(p.Pos(f.Pos())) {
+				continue
+			}
+			fns = append(fns, f)
+		}
+		n := releasedOnAllPaths(p, la, r, "C12-R9", fns, func(id string) bool { return !strings.HasPrefix(id, "local:") })
+		_ = n
+		r.Floor("C12-R9", 60, "functions that take a lock (repo-wide)")
+	}
+	c12R8(p, r)
 }
 
 func itoa(i int64) string { return strconv.FormatInt(i, 10) }
+
+// c12R8: headers taken from the chain (the parent handed to a validator, the node's head, a header read
+// back by height or hash) may be empty blocks: every dereference of their proposed part lies behind a
+// presence test of that part (or the absence of the empty part) on the same header.
+func c12R8(p *engine.Prog, r *engine.Report) {
+	n := 0
+	isChainHeader := func(f *ssa.Function, hdr ssa.Value) (bool, string) {
+		switch x := hdr.(type) {
+		case *ssa.Parameter:
+			if nn := engine.NamedOf(x.Type()); nn == nil || nn.Obj().Name() != "Header" {
+				return false, ""
+			}
+			// not the candidate under validation (the first header/block parameter)
+			if candParam(f) == ssa.Value(x) {
+				return false, ""
+			}
+			return true, "parameter " + x.Name()
+		case *ssa.UnOp:
+			if _, fld, ok := engine.FieldOf(x); ok && (fld == "Head" || fld == "PreliminaryHead") {
+				return true, "chain." + fld
+			}
+		case *ssa.Call:
+			if nn := engine.NamedOf(x.Type()); nn != nil && nn.Obj().Name() == "Header" {
+				if o := engine.CalleeObj(&x.Call); o != nil && o.Pkg() != nil && engine.IsRepoPkg(o.Pkg()) {
+					return true, "result of " + o.Name()
+				}
+			}
+		}
+		return false, ""
+	}
+	for _, f := range p.AllFuncs() {
+		if f.Blocks == nil || f.Synthetic != "" || isTestish(p.Pos(f.Pos())) {
+			continue
+		}
+		sp := engine.ShortPkg(engine.FuncPkg(f).Path())
+		if sp == "blockchain/types" || strings.HasPrefix(sp, "api") || strings.HasPrefix(sp, "cmd") {
+			continue
+		}
+		for _, b := range f.Blocks {
+			for _, ins := range b.Instrs {
+				fa, ok := ins.(*ssa.FieldAddr)
+				if !ok {
+					continue
+				}
+				ld, ok := fa.X.(*ssa.UnOp)
+				if !ok || ld.Op != token.MUL {
+					continue
+				}
+				hb, isP := loadOfField(ld, "Header", "ProposedHeader")
+				if !isP {
+					continue
+				}
+				hdr := engine.Origin(hb)
+				isCh, what := isChainHeader(f, hdr)
+				if !isCh {
+					continue
+				}
+				n++
+				hpath := engine.PathOf(hdr)
+				same := func(v ssa.Value) bool { return engine.Origin(v) == hdr || engine.PathOf(engine.Origin(v)) == hpath }
+				g := guardsWhere(f, func(cond ssa.Value) (bool, bool, string) {
+					c, neg := stripNot(cond)
+					if x, nonNilOnTrue, ok := engine.NilCheck(c); ok {
+						if base, isPH := loadOfField(x, "Header", "ProposedHeader"); isPH && same(base) {
+							return true, nonNilOnTrue != neg, "proposed part present"
+						}
+						if base, isEH := loadOfField(x, "Header", "EmptyBlockHeader"); isEH && same(base) {
+							return true, nonNilOnTrue == neg, "empty part absent"
+						}
+					}
+					return false, false, ""
+				})
+				_, fld, _ := engine.FieldOf(fa)
+				r.Check(len(g) > 0 && engine.OnlyThroughPass(f, b, g), "C12-R8", uniq(r, engine.RelName(f)+"|"+what+".ProposedHeader."+fld+" behind a presence test"), p.InstrPos(fa), "proposed part present (or empty part absent) on the same header", "the header comes from the chain ("+what+") and may be an empty block: its proposed part is dereferenced without a presence test — a peer that makes this code run on top of an empty block crashes the node")
+			}
+		}
+	}
+	r.Floor("C12-R8", 3, "chain-header dereferences")
+	_ = n
+}
